@@ -30,6 +30,7 @@ func checkC06(c *Ctx) {
 	ruleWSSpecRecognisers(c)
 	ruleStartNonBlank(c)
 	ruleFenceIndent(c)
+	ruleTabPartial(c)
 	ruleHTMLBlockTable(c)
 	rulePrefilter(c)
 	ruleWindowSearch(c)
